@@ -134,6 +134,27 @@ theorem duplicate_id_rejected (s : State) (sender to : Addr) (coins : Coins) (lo
     · exact ⟨_, rfl⟩
     · simp [AMap.contains, hg]
 
+/-! ### a claim with the right secret of an open contract is accepted -/
+
+/-- plain contract: a well-formed claim presenting a secret that hashes (with the contract's
+timestamp) to the lock is accepted in every state satisfying the invariant — the escrow covers it -/
+theorem right_secret_accepted_plain (s : State) (sender id secret : String) (c : Contract) (hs : Inv s)
+    (hg : AMap.get? s.htlcs id = some c) (ho : c.state = .open) (ht : c.transfer = false)
+    (hid : hexOk64 id = true) (hsec : hexOk64 secret = true) (hlk : genLock secret c.timestamp = c.hashLock) :
+    ∃ s', step s (.claim sender id secret) = .ok s' := by
+  obtain ⟨s', h⟩ := claimPlain_succeeds (secret := secret) hs hg ho ht hid hsec
+  exact ⟨s', by simp only [step, hg, Option.map_some, Option.getD_some, hlk]; exact h⟩
+
+/-- outgoing cross-chain transfer: likewise (the counters and the escrow cover the burn); for
+incoming transfers see `Props.C04.claim_incoming_never_fails` -/
+theorem right_secret_accepted_outgoing (s : State) (sender id secret : String) (c : Contract) (hs : Inv s)
+    (hg : AMap.get? s.htlcs id = some c) (ho : c.state = .open) (ht : c.transfer = true)
+    (hdir : c.direction = .outgoing) (hid : hexOk64 id = true) (hsec : hexOk64 secret = true)
+    (hlk : genLock secret c.timestamp = c.hashLock) :
+    ∃ s', step s (.claim sender id secret) = .ok s' := by
+  obtain ⟨s', h⟩ := claimOutgoing_succeeds (secret := secret) hs hg ho ht hdir hid hsec
+  exact ⟨s', by simp only [step, hg, Option.map_some, Option.getD_some, hlk]; exact h⟩
+
 /-! ### (ii) what moves, and only then: exact bank deltas -/
 
 /-- an accepted claim: the contract was open, the secret hashes (with the contract's timestamp)
